@@ -31,7 +31,7 @@ SCALE_LIN = ["sum", "s", "pi", "pi-xy", "theta"]
 
 def plan(tier, seed):
     q = tier == "quick"
-    return [{"name": "s%d" % i, "i": i, "n": 24 if q else 900, "c": 2 if q else 50} for i in range(NSHARD)]
+    return [{"name": "s%d" % i, "i": i, "n": 24 if q else 4000, "c": 2 if q else 150} for i in range(NSHARD)]
 
 
 def val(stats, name):
@@ -40,9 +40,11 @@ def val(stats, name):
 
 
 def same(a, b, scale=1.0):
+    """abs 1e-12 + rel 1e-9 (of the larger of the two values and of `scale`): a statistic that is exactly 0 on one side
+    may be a rounding residue of 1e-17 on the other."""
     if a is None or b is None or not math.isfinite(a) or not math.isfinite(b):
         return None        # undefined: skipped
-    return abs(a - b) <= 1e-9 * scale + 1e-9 * max(abs(a), abs(b))
+    return abs(a - b) <= 1e-12 + 1e-9 * max(abs(a), abs(b), abs(scale))
 
 
 def stats_req(shape, data):
